@@ -855,6 +855,11 @@ class Body:
                     src = a.get('cp') or a.get('mv')
                     if src and not src.get('pr'):
                         work.append(src['l'])
+                elif d[0] == 'call' and self._comb_map(d[2]) is not None and d[2]['args']:
+                    a = d[2]['args'][0]
+                    src = a.get('cp') or a.get('mv')
+                    if src and not src.get('pr'):
+                        work.append(src['l'])
                 elif d[0] == 'call' and d[2].get('name') in self._TEST_FNS and d[2]['args']:
                     a = d[2]['args'][0]
                     src = a.get('cp') or a.get('mv')
@@ -866,6 +871,17 @@ class Body:
         return rel
 
     _BRANCH_MAP = {'Ok': 'Continue', 'Some': 'Continue', 'Err': 'Break', 'None': 'Break', 'Ready': None}
+    # Option / Result combinators (taking the value by value) whose result variant is decided by the variant of the receiver
+    _COMB = {'ok_or_else': {'Some': 'Ok', 'None': 'Err'}, 'ok_or': {'Some': 'Ok', 'None': 'Err'},
+             'map_err': {'Ok': 'Ok', 'Err': 'Err'}, 'map': {'Some': 'Some', 'None': 'None', 'Ok': 'Ok', 'Err': 'Err'},
+             'ok': {'Ok': 'Some', 'Err': 'None'}, 'err': {'Ok': 'None', 'Err': 'Some'},
+             'and_then': {'None': 'None', 'Err': 'Err'}, 'filter': {'None': 'None'}, 'inspect': {'Some': 'Some', 'None': 'None', 'Ok': 'Ok', 'Err': 'Err'},
+             'inspect_err': {'Ok': 'Ok', 'Err': 'Err'}, 'copied': {'Some': 'Some', 'None': 'None'}, 'cloned': {'Some': 'Some', 'None': 'None'}}
+
+    def _comb_map(self, t):
+        if t.get('name') in self._COMB and re.search(r'(option::Option|result::Result)', t.get('fn') or ''):
+            return self._COMB[t['name']]
+        return None
     _TEST_FNS = {'is_err': ('Err', 'Ok'), 'is_ok': ('Ok', 'Err'), 'is_some': ('Some', 'None'), 'is_none': ('None', 'Some')}
 
     @staticmethod
@@ -998,6 +1014,14 @@ class Body:
                         if kk and kk[0] == 'v' and self._BRANCH_MAP.get(kk[1]):
                             bm = self._BRANCH_MAP[kk[1]]
                             new = ('v', bm, kk[2] if bm == 'Continue' and len(kk) > 2 else None)
+                cm = self._comb_map(t) if (new is None and t['args'] and d['l'] in rel) else None
+                if cm is not None:
+                    a = t['args'][0]
+                    src = a.get('cp') or a.get('mv')
+                    if src is not None and not src.get('pr'):
+                        kk = know.get(src['l'])
+                        if kk and kk[0] == 'v' and cm.get(kk[1]):
+                            new = ('v', cm[kk[1]], None)
                 if new is None and t.get('name') in self._TEST_FNS and t['args'] and d['l'] in rel:
                     a = t['args'][0]
                     src = a.get('cp') or a.get('mv')
